@@ -95,6 +95,9 @@ func (graphScen) Gen(r *Rng, cfg GenConfig) any {
 		}
 	default:
 		n = r.Range(4, 8)
+		if cfg.Tier == "thorough" && r.Chance(1, 3) {
+			n = 8 // grNames has 8 names; the thorough tier uses the largest graphs more often
+		}
 		switch r.Intn(4) {
 		case 0: // chain
 			for i := 0; i+1 < n; i++ {
